@@ -59,7 +59,27 @@ fn to_zst(v: Val) -> Zst {
 pub fn clone_nodes() -> bool {
     CLONE_NODES.with(|c| c.get())
 }
+thread_local! {
+    /// When set, every library combinator that the builder follows with a `.map(..)` (to turn its output into a Val) is
+    /// type-erased first (`.boxed()`), so that it is entered through its dynamic entry points go_emit / go_check instead
+    /// of the generic go::<M>: both ways in must behave alike (C04, C13)
+    pub static BOX_INNER: std::cell::Cell<bool> = std::cell::Cell::new(false);
+}
+pub fn box_inner() -> bool {
+    BOX_INNER.with(|c| c.get())
+}
 pub trait Bxd<'a, I: Input<'a>, O, Ex: chumsky::extra::ParserExtra<'a, I>>: Parser<'a, I, O, Ex> + Clone + Sized + 'a {
+    /// `.map(f)` followed by boxing; under BOX_INNER the parser itself is boxed before it is mapped
+    fn bmap<O2: 'a, F: Fn(O) -> O2 + Clone + 'a>(self, f: F) -> Boxed<'a, 'a, I, O2, Ex>
+    where
+        O: 'a,
+    {
+        if box_inner() {
+            Parser::boxed(self).map(f).bxd()
+        } else {
+            self.map(f).bxd()
+        }
+    }
     fn bxd(self) -> Boxed<'a, 'a, I, O, Ex> {
         if clone_nodes() {
             let c = self.clone();
@@ -142,7 +162,7 @@ pub trait Kind<'a>: Input<'a, Token: Tok, Span: SpanObs> + Sized + 'a {
 // ---- combinators that need ValueInput (tokens by value): not every Input has them (IterInput does not) ----
 pub fn value_leaf<'a, I: Kind<'a> + ValueInput<'a>, E: ErrTy<'a, I>>(g: &G) -> Result<P<'a, I, E>, String> {
     Ok(match g {
-        G::Any => any::<I, X<E>>().map(|t: I::Token| Val::T(t.ch())).bxd(),
+        G::Any => any::<I, X<E>>().bmap(|t: I::Token| Val::T(t.ch())),
         G::Sel(ts) => {
             let ts = ts.clone();
             chumsky::primitive::select(move |t: I::Token, _| if ts.contains(&t.ch()) { Some(Val::m("sel", Val::T(t.ch()))) } else { None }).bxd()
@@ -286,9 +306,9 @@ impl<'a, I: Kind<'a> + ValueInput<'a>, E: ErrTy<'a, I>> chumsky::extension::v1::
 }
 pub fn value_set<'a, I: Kind<'a> + ValueInput<'a>, E: ErrTy<'a, I>>(ts: &[char], negate: bool) -> P<'a, I, E> {
     if negate {
-        none_of::<_, I, X<E>>(tks::<I::Token>(ts)).map(|t: I::Token| Val::T(t.ch())).bxd()
+        none_of::<_, I, X<E>>(tks::<I::Token>(ts)).bmap(|t: I::Token| Val::T(t.ch()))
     } else {
-        one_of::<_, I, X<E>>(tks::<I::Token>(ts)).map(|t: I::Token| Val::T(t.ch())).bxd()
+        one_of::<_, I, X<E>>(tks::<I::Token>(ts)).bmap(|t: I::Token| Val::T(t.ch()))
     }
 }
 pub fn value_nd<'a, I: Kind<'a> + ValueInput<'a>, E: ErrTy<'a, I>>(a: P<'a, I, E>, st: char, en: char, others: &[(char, char)]) -> Result<P<'a, I, E>, String> {
@@ -308,7 +328,7 @@ macro_rules! value_impl {
             value_leaf::<Self, E>(g)
         }
         fn vnot<E: ErrTy<$lt, Self>>(p: P<$lt, Self, E>) -> Result<P<$lt, Self, E>, String> {
-            Ok(p.not().map(|()| Val::U).bxd())
+            Ok(p.not().bmap(|()| Val::U))
         }
         fn vprog<E: ErrTy<$lt, Self>>(ins: &[crate::ast::Ins], subs: Vec<P<$lt, Self, E>>) -> Result<P<$lt, Self, E>, String> {
             Ok(crate::build::value_prog::<Self, E>(ins, subs))
@@ -334,7 +354,7 @@ pub(crate) use value_set_impl;
 macro_rules! by_ref_impl {
     () => {
         fn any_ref<E: ErrTy<'a, Self>>() -> Result<P<'a, Self, E>, String> {
-            Ok(chumsky::primitive::any_ref::<Self, X<E>>().map(|t: &Self::Token| crate::val::Val::T(t.ch())).bxd())
+            Ok(chumsky::primitive::any_ref::<Self, X<E>>().bmap(|t: &Self::Token| crate::val::Val::T(t.ch())))
         }
         fn sel_ref<E: ErrTy<'a, Self>>(ts: Vec<char>) -> Result<P<'a, Self, E>, String> {
             Ok(chumsky::primitive::select_ref(move |t: &'a Self::Token, _| if ts.contains(&t.ch()) { Some(crate::val::Val::m("sel", crate::val::Val::T(t.ch()))) } else { None }).bxd())
@@ -365,15 +385,15 @@ macro_rules! text_impl {
             let sl = |s: <$I as chumsky::input::SliceInput<'a>>::Slice| slice_val(s.as_ptr() as usize, s.len());
             let radix = || arg.parse::<u32>().map_err(|e| format!("radix {arg}: {e}"));
             let p: P<'a, $I, R<'a>> = match name {
-                "ws" => text::whitespace::<$I, X<R<'a>>>().to_slice().map(sl).bxd(),
-                "iws" => text::inline_whitespace::<$I, X<R<'a>>>().to_slice().map(sl).bxd(),
+                "ws" => text::whitespace::<$I, X<R<'a>>>().to_slice().bmap(sl),
+                "iws" => text::inline_whitespace::<$I, X<R<'a>>>().to_slice().bmap(sl),
                 "nl" => $nl?,
-                "digits" => text::digits::<$I, X<R<'a>>>(radix()?).to_slice().map(sl).bxd(),
-                "int" => text::int::<$I, X<R<'a>>>(radix()?).map(sl).bxd(),
-                "aident" => text::ascii::ident::<$I, X<R<'a>>>().map(sl).bxd(),
-                "uident" => text::unicode::ident::<$I, X<R<'a>>>().map(sl).bxd(),
-                "akw" => text::ascii::keyword::<$I, _, X<R<'a>>>($kwseq(arg)).map(sl).bxd(),
-                "ukw" => text::unicode::keyword::<$I, _, X<R<'a>>>($kwseq(arg)).map(sl).bxd(),
+                "digits" => text::digits::<$I, X<R<'a>>>(radix()?).to_slice().bmap(sl),
+                "int" => text::int::<$I, X<R<'a>>>(radix()?).bmap(sl),
+                "aident" => text::ascii::ident::<$I, X<R<'a>>>().bmap(sl),
+                "uident" => text::unicode::ident::<$I, X<R<'a>>>().bmap(sl),
+                "akw" => text::ascii::keyword::<$I, _, X<R<'a>>>($kwseq(arg)).bmap(sl),
+                "ukw" => text::unicode::keyword::<$I, _, X<R<'a>>>($kwseq(arg)).bmap(sl),
                 n => return Err(format!("unknown text parser {n}")),
             };
             Ok(same_type::<P<'a, $I, R<'a>>, P<'a, Self, E>>(p))
@@ -391,7 +411,7 @@ pub fn slice_val(ptr: usize, len: usize) -> Val {
 }
 
 fn nl_str<'a>() -> Result<P<'a, &'a str, chumsky::error::Rich<'a, char>>, String> {
-    Ok(chumsky::text::newline::<&'a str, X<chumsky::error::Rich<'a, char>>>().to_slice().map(|s: &'a str| slice_val(s.as_ptr() as usize, s.len())).bxd())
+    Ok(chumsky::text::newline::<&'a str, X<chumsky::error::Rich<'a, char>>>().to_slice().bmap(|s: &'a str| slice_val(s.as_ptr() as usize, s.len())))
 }
 /// a keyword for byte inputs: comparable with the matched byte slice and printable as an expectation
 #[derive(Clone)]
@@ -417,14 +437,14 @@ impl<'a> Kind<'a> for &'a str {
     text_impl!(&'a str, char, kw_str, nl_str());
     fn one_of_set<E: ErrTy<'a, Self>>(ts: &[char], negate: bool) -> Result<P<'a, Self, E>, String> {
         let set: String = ts.iter().collect();
-        Ok(if negate { none_of::<_, Self, X<E>>(set).map(Val::T).bxd() } else { one_of::<_, Self, X<E>>(set).map(Val::T).bxd() })
+        Ok(if negate { none_of::<_, Self, X<E>>(set).map(Val::T).bxd() } else { one_of::<_, Self, X<E>>(set).bmap(Val::T) })
     }
     value_impl!('a);
     fn base(&self) -> (usize, usize) {
         (self.as_ptr() as usize, 1)
     }
     fn toslice<E: ErrTy<'a, Self>>(p: P<'a, Self, E>) -> Result<P<'a, Self, E>, String> {
-        Ok(p.to_slice().map(|s: &'a str| slice_val(s.as_ptr() as usize, s.len())).bxd())
+        Ok(p.to_slice().bmap(|s: &'a str| slice_val(s.as_ptr() as usize, s.len())))
     }
 }
 impl<'a> Kind<'a> for &'a [char] {
@@ -436,7 +456,7 @@ impl<'a> Kind<'a> for &'a [char] {
         (self.as_ptr() as usize, std::mem::size_of::<char>())
     }
     fn toslice<E: ErrTy<'a, Self>>(p: P<'a, Self, E>) -> Result<P<'a, Self, E>, String> {
-        Ok(p.to_slice().map(|s: &'a [char]| slice_val(s.as_ptr() as usize, s.len())).bxd())
+        Ok(p.to_slice().bmap(|s: &'a [char]| slice_val(s.as_ptr() as usize, s.len())))
     }
 }
 
@@ -458,7 +478,7 @@ impl<'a, const N: usize> Kind<'a> for &'a [char; N] {
         (self.as_ptr() as usize, std::mem::size_of::<char>())
     }
     fn toslice<E: ErrTy<'a, Self>>(p: P<'a, Self, E>) -> Result<P<'a, Self, E>, String> {
-        Ok(p.to_slice().map(|s: &'a [char]| slice_val(s.as_ptr() as usize, s.len())).bxd())
+        Ok(p.to_slice().bmap(|s: &'a [char]| slice_val(s.as_ptr() as usize, s.len())))
     }
 }
 impl<'a> Kind<'a> for &'a [u8] {
@@ -472,7 +492,7 @@ impl<'a> Kind<'a> for &'a [u8] {
         (self.as_ptr() as usize, 1)
     }
     fn toslice<E: ErrTy<'a, Self>>(p: P<'a, Self, E>) -> Result<P<'a, Self, E>, String> {
-        Ok(p.to_slice().map(|s: &'a [u8]| slice_val(s.as_ptr() as usize, s.len())).bxd())
+        Ok(p.to_slice().bmap(|s: &'a [u8]| slice_val(s.as_ptr() as usize, s.len())))
     }
 }
 // C19: slices and streams of tokens with observable ownership (every clone the library makes is tracked)
@@ -517,7 +537,7 @@ impl Kind<'static> for &'static chumsky::text::Graphemes {
     value_impl!('static);
     value_set_impl!('static);
     fn toslice<E: ErrTy<'static, Self>>(p: P<'static, Self, E>) -> Result<P<'static, Self, E>, String> {
-        Ok(p.to_slice().map(|s: &'static chumsky::text::Graphemes| slice_val(s.as_str().as_ptr() as usize, s.as_str().len())).bxd())
+        Ok(p.to_slice().bmap(|s: &'static chumsky::text::Graphemes| slice_val(s.as_str().as_ptr() as usize, s.as_str().len())))
     }
     fn base(&self) -> (usize, usize) {
         (self.as_str().as_ptr() as usize, 1)
@@ -574,18 +594,18 @@ where
     let r = if clone_nodes() { r.clone() } else { r };
     let items = |v: Vec<O>| v.into_iter().map(IntoVal::into_val).collect::<Vec<Val>>();
     Ok(match cons {
-        Cons::Collect("vec") => r.collect::<Vec<O>>().map(move |v| Val::L(items(v))).bxd(),
-        Cons::Collect("count") => r.collect::<usize>().map(|n| Val::I(n as i64)).bxd(),
-        Cons::Collect("count2") => r.count().map(|n| Val::I(n as i64)).bxd(),
-        Cons::Collect("unit") => r.collect::<()>().map(|()| Val::U).bxd(),
+        Cons::Collect("vec") => r.collect::<Vec<O>>().bmap(move |v| Val::L(items(v))),
+        Cons::Collect("count") => r.collect::<usize>().bmap(|n| Val::I(n as i64)),
+        Cons::Collect("count2") => r.count().bmap(|n| Val::I(n as i64)),
+        Cons::Collect("unit") => r.collect::<()>().bmap(|()| Val::U),
         Cons::Collect(s) => return Err(format!("unsupported sink {s}")),
-        Cons::Exact(1) if variant() == 1 => r.collect_exactly::<Box<[O; 1]>>().map(|a| Val::A((a as Box<[O]>).into_vec().into_iter().map(IntoVal::into_val).collect())).bxd(),
-        Cons::Exact(2) if variant() == 1 => r.collect_exactly::<Box<[O; 2]>>().map(|a| Val::A((a as Box<[O]>).into_vec().into_iter().map(IntoVal::into_val).collect())).bxd(),
-        Cons::Exact(3) if variant() == 1 => r.collect_exactly::<Box<Box<[O; 3]>>>().map(|a| Val::A((*a as Box<[O]>).into_vec().into_iter().map(IntoVal::into_val).collect())).bxd(),
-        Cons::Exact(0) => r.collect_exactly::<[O; 0]>().map(|_| Val::A(vec![])).bxd(),
-        Cons::Exact(1) => r.collect_exactly::<[O; 1]>().map(|a| Val::A(a.into_iter().map(IntoVal::into_val).collect())).bxd(),
-        Cons::Exact(2) => r.collect_exactly::<[O; 2]>().map(|a| Val::A(a.into_iter().map(IntoVal::into_val).collect())).bxd(),
-        Cons::Exact(3) => r.collect_exactly::<[O; 3]>().map(|a| Val::A(a.into_iter().map(IntoVal::into_val).collect())).bxd(),
+        Cons::Exact(1) if variant() == 1 => r.collect_exactly::<Box<[O; 1]>>().bmap(|a| Val::A((a as Box<[O]>).into_vec().into_iter().map(IntoVal::into_val).collect())),
+        Cons::Exact(2) if variant() == 1 => r.collect_exactly::<Box<[O; 2]>>().bmap(|a| Val::A((a as Box<[O]>).into_vec().into_iter().map(IntoVal::into_val).collect())),
+        Cons::Exact(3) if variant() == 1 => r.collect_exactly::<Box<Box<[O; 3]>>>().bmap(|a| Val::A((*a as Box<[O]>).into_vec().into_iter().map(IntoVal::into_val).collect())),
+        Cons::Exact(0) => r.collect_exactly::<[O; 0]>().bmap(|_| Val::A(vec![])),
+        Cons::Exact(1) => r.collect_exactly::<[O; 1]>().bmap(|a| Val::A(a.into_iter().map(IntoVal::into_val).collect())),
+        Cons::Exact(2) => r.collect_exactly::<[O; 2]>().bmap(|a| Val::A(a.into_iter().map(IntoVal::into_val).collect())),
+        Cons::Exact(3) => r.collect_exactly::<[O; 3]>().bmap(|a| Val::A(a.into_iter().map(IntoVal::into_val).collect())),
         Cons::Exact(n) => return Err(format!("unsupported collect_exactly size {n}")),
         Cons::Foldl(a, f, false) => a.foldl(r, move |acc, it: O| Val::f(&f, acc, it.into_val())).bxd(),
         Cons::Foldl(a, f, true) => a
@@ -716,7 +736,7 @@ where
             if *hi >= 0 {
                 r = r.at_most(*hi as usize);
             }
-            Ok(r.map(|()| Val::U).bxd())
+            Ok(r.bmap(|()| Val::U))
         }
         It::Sep(a, s, lo, hi, lead, trail) => {
             let mut r = build(a, env)?.separated_by(build(s, env)?).at_least(*lo);
@@ -729,7 +749,7 @@ where
             if *trail {
                 r = r.allow_trailing();
             }
-            Ok(r.map(|()| Val::U).bxd())
+            Ok(r.bmap(|()| Val::U))
         }
         It::CfgRep(inner, how) => match &**inner {
             It::Rep(a, lo, hi) => {
@@ -738,10 +758,10 @@ where
                     r = r.at_most(*hi as usize);
                 }
                 Ok(match how {
-                    0 => r.configure(|cfg, ctx: &Val| cfg.exactly(ctx.ctx_num())).map(|()| Val::U).bxd(),
-                    1 => r.configure(|cfg, ctx: &Val| cfg.at_least(ctx.ctx_num())).map(|()| Val::U).bxd(),
-                    3 => r.try_configure(|cfg, ctx: &Val, span| if ctx.ctx_num() <= 2 { Ok(cfg.exactly(ctx.ctx_num())) } else { Err(E::user(span, "tc")) }).map(|()| Val::U).bxd(),
-                    _ => r.configure(|cfg, ctx: &Val| cfg.at_most(ctx.ctx_num())).map(|()| Val::U).bxd(),
+                    0 => r.configure(|cfg, ctx: &Val| cfg.exactly(ctx.ctx_num())).bmap(|()| Val::U),
+                    1 => r.configure(|cfg, ctx: &Val| cfg.at_least(ctx.ctx_num())).bmap(|()| Val::U),
+                    3 => r.try_configure(|cfg, ctx: &Val, span| if ctx.ctx_num() <= 2 { Ok(cfg.exactly(ctx.ctx_num())) } else { Err(E::user(span, "tc")) }).bmap(|()| Val::U),
+                    _ => r.configure(|cfg, ctx: &Val| cfg.at_most(ctx.ctx_num())).bmap(|()| Val::U),
                 })
             }
             _ => Err("unsupported configure operand".into()),
@@ -765,7 +785,7 @@ where
             if *hi >= 0 {
                 r = r.at_most(*hi as usize);
             }
-            Ok(r.collect::<String>().map(out).bxd())
+            Ok(r.collect::<String>().bmap(out))
         }
         It::Sep(a, s, lo, hi, lead, trail) => {
             let mut r = build(a, env)?.map(ch).separated_by(build(s, env)?).at_least(*lo);
@@ -778,7 +798,7 @@ where
             if *trail {
                 r = r.allow_trailing();
             }
-            Ok(r.collect::<String>().map(out).bxd())
+            Ok(r.collect::<String>().bmap(out))
         }
         _ => Err("unsupported String sink operand".into()),
     }
@@ -796,18 +816,16 @@ where
     Ok(match g {
         G::Just(seq) => {
             let s: Vec<I::Token> = tks(seq);
-            just::<_, I, X<E>>(s).map(|s: Vec<I::Token>| Val::S(s.iter().map(|t| t.ch()).collect())).bxd()
+            just::<_, I, X<E>>(s).bmap(|s: Vec<I::Token>| Val::S(s.iter().map(|t| t.ch()).collect()))
         }
         G::CfgJust => just::<_, I, X<E>>(Vec::<I::Token>::new())
             .configure(|cfg, ctx: &Val| cfg.seq(tks::<I::Token>(&ctx.ctx_toks())))
-            .map(|s: Vec<I::Token>| Val::S(s.iter().map(|t| t.ch()).collect()))
-            .bxd(),
+            .bmap(|s: Vec<I::Token>| Val::S(s.iter().map(|t| t.ch()).collect())),
         G::CfgJustR => {
             // the same configurable parser reached through the by-reference ConfigParser impl
             let j: &'a chumsky::primitive::Just<Vec<I::Token>, I, X<E>> = Box::leak(Box::new(just::<_, I, X<E>>(Vec::<I::Token>::new())));
             j.configure(|cfg, ctx: &Val| cfg.seq(tks::<I::Token>(&ctx.ctx_toks())))
-                .map(|s: Vec<I::Token>| Val::S(s.iter().map(|t| t.ch()).collect()))
-                .bxd()
+                .bmap(|s: Vec<I::Token>| Val::S(s.iter().map(|t| t.ch()).collect()))
         }
         G::Any | G::Sel(_) | G::Cust(..) | G::Ext(..) => I::vleaf::<E>(g)?,
         G::Prog(ins, subs) => I::vprog::<E>(ins, subs.iter().map(|p| build(p, env)).collect::<Result<Vec<_>, _>>()?)?,
@@ -815,8 +833,8 @@ where
         G::NoneOf(ts) => I::one_of_set::<E>(ts, true)?,
         G::AnyR => I::any_ref::<E>()?,
         G::SelR(ts) => I::sel_ref::<E>(ts.clone())?,
-        G::End => end::<I, X<E>>().map(|()| Val::U).bxd(),
-        G::Empty => empty::<I, X<E>>().map(|()| Val::U).bxd(),
+        G::End => end::<I, X<E>>().bmap(|()| Val::U),
+        G::Empty => empty::<I, X<E>>().bmap(|()| Val::U),
         G::Probe(id) => {
             let id = *id;
             custom(move |inp: &mut InputRef<'a, '_, I, X<E>>| {
@@ -830,7 +848,7 @@ where
         }
         G::Then(a, b) => {
             let (a, b) = b2(a, b, env)?;
-            a.then(b).map(|(x, y)| Val::p(x, y)).bxd()
+            a.then(b).bmap(|(x, y)| Val::p(x, y))
         }
         G::IThen(a, b) => {
             let (a, b) = b2(a, b, env)?;
@@ -845,14 +863,14 @@ where
         G::Group(ps) => {
             let mut v = ps.iter().map(|p| build(p, env)).collect::<Result<Vec<_>, _>>()?;
             match v.len() {
-                1 => group((v.remove(0),)).map(|(a,)| Val::G(vec![a])).bxd(),
+                1 => group((v.remove(0),)).bmap(|(a,)| Val::G(vec![a])),
                 2 => {
                     let (b, a) = (v.pop().unwrap(), v.pop().unwrap());
-                    group((a, b)).map(|(a, b)| Val::G(vec![a, b])).bxd()
+                    group((a, b)).bmap(|(a, b)| Val::G(vec![a, b]))
                 }
                 3 => {
                     let (c, b, a) = (v.pop().unwrap(), v.pop().unwrap(), v.pop().unwrap());
-                    group((a, b, c)).map(|(a, b, c)| Val::G(vec![a, b, c])).bxd()
+                    group((a, b, c)).bmap(|(a, b, c)| Val::G(vec![a, b, c]))
                 }
                 n => return Err(format!("unsupported group size {n}")),
             }
@@ -860,14 +878,14 @@ where
         G::GroupArr(ps) if variant() == 2 => {
             let mut v = ps.iter().map(|p| build(p, env).map(|p| p.map(to_zst).boxed())).collect::<Result<Vec<_>, _>>()?;
             match v.len() {
-                1 => group([v.remove(0)]).map(|a: [Zst; 1]| Val::A(a.into_iter().map(IntoVal::into_val).collect())).bxd(),
+                1 => group([v.remove(0)]).bmap(|a: [Zst; 1]| Val::A(a.into_iter().map(IntoVal::into_val).collect())),
                 2 => {
                     let (b, a) = (v.pop().unwrap(), v.pop().unwrap());
-                    group([a, b]).map(|a: [Zst; 2]| Val::A(a.into_iter().map(IntoVal::into_val).collect())).bxd()
+                    group([a, b]).bmap(|a: [Zst; 2]| Val::A(a.into_iter().map(IntoVal::into_val).collect()))
                 }
                 3 => {
                     let (c, b, a) = (v.pop().unwrap(), v.pop().unwrap(), v.pop().unwrap());
-                    group([a, b, c]).map(|a: [Zst; 3]| Val::A(a.into_iter().map(IntoVal::into_val).collect())).bxd()
+                    group([a, b, c]).bmap(|a: [Zst; 3]| Val::A(a.into_iter().map(IntoVal::into_val).collect()))
                 }
                 n => return Err(format!("unsupported group array size {n}")),
             }
@@ -875,14 +893,14 @@ where
         G::GroupArr(ps) => {
             let mut v = ps.iter().map(|p| build(p, env)).collect::<Result<Vec<_>, _>>()?;
             match v.len() {
-                1 => group([v.remove(0)]).map(|a: [Val; 1]| Val::A(a.into_iter().collect())).bxd(),
+                1 => group([v.remove(0)]).bmap(|a: [Val; 1]| Val::A(a.into_iter().collect())),
                 2 => {
                     let (b, a) = (v.pop().unwrap(), v.pop().unwrap());
-                    group([a, b]).map(|a: [Val; 2]| Val::A(a.into_iter().collect())).bxd()
+                    group([a, b]).bmap(|a: [Val; 2]| Val::A(a.into_iter().collect()))
                 }
                 3 => {
                     let (c, b, a) = (v.pop().unwrap(), v.pop().unwrap(), v.pop().unwrap());
-                    group([a, b, c]).map(|a: [Val; 3]| Val::A(a.into_iter().collect())).bxd()
+                    group([a, b, c]).bmap(|a: [Val; 3]| Val::A(a.into_iter().collect()))
                 }
                 n => return Err(format!("unsupported group array size {n}")),
             }
@@ -916,11 +934,10 @@ where
         }
         G::OrNot(a) => build(a, env)?
             .or_not()
-            .map(|o| match o {
+            .bmap(|o| match o {
                 Some(v) => Val::O(Box::new(v)),
                 None => Val::N,
-            })
-            .bxd(),
+            }),
         G::Not(a) => I::vnot::<E>(build(a, env)?)?,
         G::AndIs(a, b) => {
             let (a, b) = b2(a, b, env)?;
@@ -929,10 +946,10 @@ where
         G::Rewind(a) => build(a, env)?.rewind().bxd(),
         G::Map(a, f) => {
             let f = f.clone();
-            build(a, env)?.map(move |v| map_fn(&f, v)).bxd()
+            build(a, env)?.bmap(move |v| map_fn(&f, v))
         }
         G::To(a, c) => build(a, env)?.to(Val::k(c)).bxd(),
-        G::Ignored(a) => build(a, env)?.ignored().map(|()| Val::U).bxd(),
+        G::Ignored(a) => build(a, env)?.ignored().bmap(|()| Val::U),
         G::Filter(a, p) => {
             let p = p.clone();
             build(a, env)?.filter(move |v| pred(&p, v)).bxd()
@@ -968,7 +985,7 @@ where
                 Val::w(v, sp.0, sp.1, c, ic)
             })
             .bxd(),
-        G::ToSpan(a) => build(a, env)?.to_span().map(|s: I::Span| span_val(&s)).bxd(),
+        G::ToSpan(a) => build(a, env)?.to_span().bmap(|s: I::Span| span_val(&s)),
         G::ToSlice(a) => I::toslice::<E>(build(a, env)?)?,
         G::Boxed(a) => Parser::boxed(build(a, env)?).bxd(),
         G::Lazy(a) => I::vlazy::<E>(build(a, env)?)?,
@@ -1066,7 +1083,7 @@ where
         G::WithCtx(c, a) => build(a, env)?.with_ctx(c.clone()).bxd(),
         G::ThenCtx(a, b) => {
             let (a, b) = b2(a, b, env)?;
-            a.then_with_ctx(b).map(|(x, y)| Val::p(x, y)).bxd()
+            a.then_with_ctx(b).bmap(|(x, y)| Val::p(x, y))
         }
         G::IgnCtx(a, b) => {
             let (a, b) = b2(a, b, env)?;
